@@ -54,7 +54,7 @@ def _put(buf, off, kind, val):
     if kind in ("u8", "bool", "note", "omni", "off") or kind.startswith("enum"):
         buf[off] = int(val) & 0xFF
     elif kind in ("s8", "cents"):
-        struct.pack_into("<b", buf, off, int(val))
+        buf[off] = int(val) & 0xFF          # raw byte or signed value
     elif kind == "u16":
         struct.pack_into("<H", buf, off, int(val))
     elif kind == "name12":
